@@ -834,12 +834,27 @@ def hunt_f4(check, tries=160):
     return out
 
 
-def model_exhibits_f4():
-    """Does SchedX/XF4Refuted.v (witness event list driving the regenerated model
-    below head_offs) compile for the current source?"""
+def model_exhibits(name):
+    """Compile notes/<name>_before_fix.v (a refutation theorem with its witness event list,
+    kept outside coq/ because it compiles only against the unrepaired source) against the
+    regenerated Gen/ of the current tree.  True = the model of the CURRENT source exhibits
+    the finding."""
+    src = os.path.join(vlib.VERIF, "notes", name + "_before_fix.v")
+    d = os.path.join(vlib.WORK, "refute")
+    os.makedirs(d, exist_ok=True)
+    dst = os.path.join(d, name + ".v")
+    with open(src) as f, open(dst, "w") as g:
+        g.write(f.read())
     with vlib.Lock("coq"):
-        b = vlib.coq_build(["SchedX/XF4Refuted.vo"], timeout=900)
-    return b["ok"]
+        b = vlib.coq_build(["SchedX/XF4.vo", "SchedX/XModel.vo"], timeout=900)
+        if not b["ok"]:
+            return False
+        rc, out, err = vlib.sh(["timeout", "600", "coqc", "-Q", vlib.COQ, "LBZ", dst], cwd=d, timeout=660)
+    return rc == 0
+
+
+def model_exhibits_f4():
+    return model_exhibits("XF4Refuted")
 
 
 # ---------------------------------------------------------------------------
@@ -965,7 +980,7 @@ def hunt_deadlock(check, attempts=8, nstreams=2000):
     if hung:
         out.append(Violation("c11x:deadlock-spurious-candidates",
                              "valid input (%d small streams whose symbol bitmaps contain the block magic): `lbzip2 -dc -n%d` does not "
-                             "terminate (%d of %d runs hung for 25 s; model: SchedX/XF8Refuted.v C11x_progress_refuted)"
+                             "terminate (%d of %d runs hung for 25 s; model: notes/XF8Refuted_before_fix.v C11x_progress_refuted)"
                              % (nstreams, [4, 8, 3, 16][hung[0] % 4], len(hung), attempts),
                              {"input_hex": c.data.hex(), "n": [4, 8, 3, 16][hung[0] % 4], "flavor": "rel", "kind": "deadlock"}))
     if wrong:
